@@ -83,10 +83,10 @@ type c19Case struct {
 	mutMsg    func(q *pb.QuoteV4)
 
 	w       *world.World
-	sample  bool // the Intel sample quote instead of w's
-	getter  string // "" | "local"
+	sample  bool                  // the Intel sample quote instead of w's
+	getter  string                // "" | "local"
 	net     map[string]world.Resp // non-nil: the tool's network is the loopback proxy answering from this table
-	want    int  // expected exit code fixed by the property for this construction, -1 = no assertion
+	want    int                   // expected exit code fixed by the property for this construction, -1 = no assertion
 	wantWhy string
 }
 
@@ -376,7 +376,7 @@ func uintFlag(v uint64) fv {
 func badFlag(arg string) fv { return fv{state: 1, arg: arg} }
 
 func C19(c *core.Ctx) {
-	c.Rule = "the tools/check binary built from /repo, run on quotes forged under a PKI generated at the current wall clock (the tool has no time flag): config file {none, binary, textproto, missing, undecodable} with root_of_trust / policy / header_policy / td_quote_body_policy each absent or present and every field absent / matching / mismatching / malformed; every flag absent / matching / mismatching / malformed (bad hex, over-long, bad numbers, bad booleans, unknown flags, bad durations); flag-over-config pairs in both directions for every field; -inform bin / proto / textproto / unknown with valid, forged, unparsable, empty and missing inputs; trusted-root bundles by flag and by config (own root, foreign root, garbage, missing file, directory, inline); collateral download with the recorded getter and with the unreachable network (-timeout 700ms). Observed: exit status and a Go panic trace on stderr. The model receives each flag / file classified as unset / malformed / value and the same world abstraction as the verification flow. non-trivial = the run gets past flag and config parsing; distinct = distinct (flags, config, input)"
+	c.Rule = "the tools/check binary built from /repo, run on quotes forged under a PKI generated at the current wall clock (the tool has no time flag): config file {none, binary, textproto, missing, undecodable} with root_of_trust / policy / header_policy / td_quote_body_policy each absent or present and every field absent / matching / mismatching / malformed; every flag absent / matching / mismatching / malformed (bad hex, over-long, bad numbers, bad booleans, unknown flags, bad durations); number syntax of the SVN flags (leading zeros, 0x / 0o / 0b in either case, underscores, signs, spaces, exponents, non-ASCII digits, values at and beyond 16 bits); flag-over-config pairs in both directions for every field; -inform bin / proto / textproto / unknown with valid, forged, unparsable, empty and missing inputs; trusted-root bundles by flag and by config (own root, foreign root, garbage, missing file, directory, inline); collateral download with the recorded getter and with the unreachable network (-timeout 700ms). Observed: exit status and a Go panic trace on stderr. The model receives each flag / file classified as unset / malformed / value and the same world abstraction as the verification flow. non-trivial = the run gets past flag and config parsing; distinct = distinct (flags, config, input)"
 	r := c.Rng
 	now := time.Now()
 	work, err := os.MkdirTemp(c.Work, "c19")
@@ -689,6 +689,39 @@ func C19(c *core.Ctx) {
 		s.set(cs, fv{state: 2, arg: "0x0", val: core.A(0)})
 		cs.want = 0
 		add(cs)
+		// number syntax: decimal, or 0x / 0o / 0b (either case) followed by digits of that
+		// base; nothing else (a bare leading zero does not mean octal, no digit separators)
+		for _, v := range []uint64{s.have, s.have + 1} {
+			want := 0
+			if v > s.have {
+				want = 4
+			}
+			for _, t := range []string{fmt.Sprintf("0%d", v), fmt.Sprintf("000%d", v), fmt.Sprintf("0x%x", v), fmt.Sprintf("0X%X", v), fmt.Sprintf("0x00%x", v),
+				fmt.Sprintf("0o%o", v), fmt.Sprintf("0O%o", v), fmt.Sprintf("0b%b", v), fmt.Sprintf("0B%b", v)} {
+				cs = base("flag/number-syntax", "-"+s.name+"="+t+" (denotes "+fmt.Sprint(v)+")")
+				s.set(cs, fv{state: 2, arg: t, val: core.A(v)})
+				cs.want, cs.wantWhy = want, "the number the flag denotes is compared with the quote's"
+				add(cs)
+			}
+		}
+		for _, t := range []string{"0177777", "0200000", "0x10000", "0o200000", "0b10000000000000000", "00000000000000000000070000"} {
+			cs = base("flag/number-syntax", "-"+s.name+"="+t+" (denotes a number that does not fit 16 bits)")
+			s.set(cs, fv{state: 2, arg: t, val: core.A(70000)})
+			cs.want, cs.wantWhy = 1, "malformed flag value for a 16-bit field"
+			add(cs)
+		}
+		for _, t := range []string{"0xffff", "65535", "0XFFFF", "0o177777", "0b1111111111111111", "065535"} {
+			cs = base("flag/number-syntax", "-"+s.name+"="+t+" (denotes 65535)")
+			s.set(cs, fv{state: 2, arg: t, val: core.A(65535)})
+			cs.want, cs.wantWhy = 4, "a minimum of 65535 is above the quote's value"
+			add(cs)
+		}
+		for _, m := range []string{"0_0", "0x_0", "1_0", "0x", "0b", "0o", "0b2", "0o8", "0xg", "+1", "+0", " 1", "1 ", "1e2", "0x1p2", "08a", "0x-1", "١", "1,0", "0x0x0", "0d10"} {
+			cs = base("flag/malformed", "-"+s.name+"="+m+" (not a number)")
+			s.set(cs, badFlag(m))
+			cs.want, cs.wantWhy = 1, "malformed flag"
+			add(cs)
+		}
 		for _, kind := range kinds {
 			cfg := emptyCfg()
 			s.cfg(cfg.Policy, uint32(s.have+1))
